@@ -857,10 +857,21 @@ pub fn receive_rewards(mut deps: DepsMut, env: Env, info: MessageInfo) -> Contra
     }
 
     let amount = coin.unwrap().amount;
-    let fee = config
+    // The fee rate is not bounded by validation: a fee that does not even fit
+    // 128 bits certainly exceeds the reward.
+    let fee = match config
         .protocol_fee_config
         .dao_treasury_fee
-        .multiply_ratio(amount, 100_000u128);
+        .checked_multiply_ratio(amount, 100_000u128)
+    {
+        Ok(fee) => fee,
+        Err(_) => {
+            return Err(ContractError::ReceiveRewardsTooSmall {
+                amount,
+                minimum: Uint128::MAX,
+            })
+        }
+    };
     let amount_after_fees = amount.checked_sub(fee);
     if amount_after_fees.is_err() {
         return Err(ContractError::ReceiveRewardsTooSmall {
